@@ -19,6 +19,12 @@ def run_one(args):
 
 if __name__ == "__main__":
     props = sys.argv[1:]
+    for p in props:      # the unchanged tree must pass before anything else is worth running
+        r = subprocess.run(["/verif/check", p], capture_output=True, text=True, env={**os.environ, "VERIF_NO_EVIDENCE": "1"})
+        if r.returncode != 0:
+            print("\n".join(l for l in r.stdout.splitlines() if not l.startswith("KNOWN"))[-1500:])
+            print(f"{p}: check fails on the unchanged tree (rc={r.returncode}); regression not run")
+            sys.exit(1)
     exp = json.loads((V / "mutants" / "expected.json").read_text())
     specs = {s["id"]: s for s in M.specs()}
     jobs = [(s, props) for s in M.benign_specs()]
